@@ -365,4 +365,20 @@ theorem halts_within (E : Env) (δ : Nat) (C : Ctx E δ) : ∀ (b : Nat) (s : St
       obtain ⟨n, hn, hr⟩ := halts_within E δ C b (step E s) (good_step E δ C s g hnh) (by omega)
       exact ⟨n + 1, by omega, hr⟩
 
+/-- the state right after `ExecuteThread` -/
+theorem startCall_cases (E : Env) (s0 : St) (l : Nat) :
+    ((startCall E s0 l).timer.elems.length ≤ s0.timer.elems.length ∧ (startCall E s0 l).ub = s0.ub) ∧
+    (((startCall E s0 l).stack = [.sei s0.nextTid s0.cur, .thrExec] ∧ (startCall E s0 l).exc = some .depth) ∨
+     (∃ dl ct, (startCall E s0 l).stack = [.vm s0.nextTid dl ct false 0, .sei s0.nextTid s0.cur, .thrExec] ∧
+        (startCall E s0 l).exc = none)) := by
+  unfold startCall
+  simp only [newThread]
+  obtain ⟨h1, h2⟩ := enterSei_cases E
+    { s0 with exc := none, threads := s0.threads ++ [(s0.nextTid, { label := l, grp := (none : Option Nat).getD s0.nextTid, joinedBy := none })],
+              nextTid := s0.nextTid + 1, stack := [Frame.thrExec] } s0.nextTid
+  refine ⟨h1, ?_⟩
+  rcases h2 with ⟨_, a, b⟩ | ⟨_, dl, ct, a, b⟩
+  · exact Or.inl ⟨a, b⟩
+  · exact Or.inr ⟨dl, ct, a, b⟩
+
 end Morfuse.Unwind
